@@ -347,6 +347,35 @@ def mon_C04(ctx):
                 ctx.bad('defeated-holding-quota-at-end', reaches_quota(ctx, num(ctx, s['vote']), q))
 
 
+def mon_C04q(ctx):
+    "QPQ paragraph 2.4: quota = va / (1 + s - tx), with va and tx recomputed from the ballots at each stage"
+    if ctx.exc is not None or ctx.method != 'qpq':
+        return
+    S = ctx.S
+    for sn in ctx.snaps:
+        if sn['tag'] not in ('elect', 'defeat') or 'remaining' in sn['msg']:
+            continue        # (the end-of-count clean-up does not recompute the quota)
+        # active ballots: those standing with a candidate who was hopeful when the quota was computed (before this action's
+        # status change): the ballot's current top is hopeful now, or is the candidate elected / excluded by this very action
+        cs = sn['cands']
+        va = z3.IntVal(0)
+        tx = z3.IntVal(0)
+        for (idx, w, m, rk) in sn['ballots']:
+            mm = mult_of(m, S)
+            if idx < len(rk):
+                va = va + mm * S
+            else:
+                tx = tx + lz(w) * mm
+        d = (1 + ctx.seats) * S - tx
+        q = lz(sn['quota'])
+        ctx.reach('qpq-quota-checked')
+        # q = floor(va * S / d)   (guarded division), stated without division
+        ctx.bad('qpq-quota-formula', z3.Not(z3.And(q * d <= va * S, va * S < (q + 1) * d)))
+
+
+mon_C04q.needs_snaps = True
+
+
 # ---------------------------------------------------------------------------------------------------
 # C05
 
